@@ -1,4 +1,5 @@
 import VaxisModel.Lemmas.VxfwNoStuck
+import VaxisModel.Lemmas.VxfwRank
 import VaxisModel.Model.Vxfw
 import VaxisModel.Spec.Routing
 import VaxisModel.Lemmas.Vxfw
@@ -376,6 +377,71 @@ example :
     effectsIn s.trace = [.other 9, .other 9, .redraw, .other 3, .other 9, .refresh, .consume, .other 9, .other 9, .other 9] ∧
     owed o.h 0 s.trace = [.other 9, .other 9, .refresh, .consume, .redraw, .other 3, .other 9, .other 9, .other 9, .other 9] := by
   decide
+
+/-- **commands_once over whole histories for refocus chains that terminate** (round 4; generalises
+`commands_once_history_wf`).  Hypothesis: a rank on widgets, bounded by `R`, such that every focus command in an answer
+to a FocusIn / FocusOut NOTIFICATION of a widget `w` (however deeply batched) targets a widget of strictly lower rank
+than `w` (`NotifRanked`; the answers to all other calls — key, mouse, custom events in every phase, Init, MouseEnter /
+MouseLeave — are arbitrary, focus commands to any widget included).  Then the nesting
+`handleCommand → focusWidget → handler → handleCommand` is at most `3 * R + 4` deep: with any budget that large (Go: a
+stack that deep) `stuck` never becomes true, over every history of the Run loop, and every command returned by any handler
+call of the history takes effect exactly once.  `Witness.F115c` (two widgets focusing each other from FocusIn: no such rank
+exists) shows that some well-foundedness condition is necessary. -/
+theorem commands_once_history_ranked (o : Oracle) (rk : Id → Nat) (R : Nat) (hR : ∀ w, rk w ≤ R) (hrk : NotifRanked o rk)
+    (fuel : Nat) (hf : 3 * R + 4 ≤ fuel) (root : Id) (t0 : STree) (steps : List Step) :
+    (runSteps o fuel (runInit o fuel root t0) steps).stuck = false ∧
+    (effectsIn (runSteps o fuel (runInit o fuel root t0) steps).trace).Perm
+      (owed o.h 0 (runSteps o fuel (runInit o fuel root t0) steps).trace) :=
+  have hns := run_never_stuck_of o fuel (hc_ranked o rk R hR hrk fuel hf) (focusWidget_ranked o rk R hR hrk fuel hf) root t0 steps
+  ⟨hns, commands_once_history o fuel root t0 steps hns⟩
+
+/-- The budget bound behind it: a command all of whose focus targets have rank `< b`, handled while a widget of rank `r`
+is focused, needs a nesting budget of at most `3 * max b r + 2`. -/
+theorem refocus_budget (o : Oracle) (rk : Id → Nat) (hrk : NotifRanked o rk) (fuel : Nat) (s : St) (c : Cmd) (b : Nat)
+    (hb : Below rk b c) (hf : 3 * max b (rk s.focused) + 2 ≤ fuel) : (handleCommand o fuel s c).stuck = s.stuck :=
+  (hc_good o rk hrk fuel s c b hb (by unfold pot; split <;> omega)).1
+
+/-- The oracle of the non-vacuity examples: widget 1's FocusIn handler focuses widget 2 (and widget 2's FocusOut handler
+asks for a redraw), widget 2's FocusIn handler answers nil; key events ask for the focus to go to widget 1. -/
+def chainOracle : Oracle :=
+  ⟨fun w ev _ _ => match ev with
+    | .focusIn => if w = 1 then .batch [.focus 2, .redraw] else .nil
+    | .focusOut => if w = 2 then .redraw else .nil
+    | .key _ => .batch [.focus 1, .consume]
+    | _ => .nil, fun _ => false⟩
+
+/-- Non-vacuity: the chain oracle is ranked (rank 1 for widget 1, 0 elsewhere), … -/
+example : NotifRanked chainOracle (fun w => if w = 1 then 1 else 0) := by
+  intro w ph k
+  constructor
+  · intro a ha w' hw'
+    by_cases h1 : w = 1
+    · subst h1
+      simp [chainOracle, Cmd.flatten, Cmd.flattenL] at ha
+      rcases ha with rfl | rfl
+      · cases hw'; decide
+      · cases hw'
+    · simp [chainOracle, h1, Cmd.flatten] at ha
+  · intro a ha w' hw'
+    by_cases h2 : w = 2
+    · subst h2
+      simp [chainOracle, Cmd.flatten] at ha
+      subst ha
+      cases hw'
+    · simp [chainOracle, h2, Cmd.flatten] at ha
+
+/-- … it is NOT covered by `commands_once_history_wf` (a FocusIn answer contains a focus command), … -/
+example : ¬ NotifFF chainOracle := by
+  intro h
+  exact (h 1 .target 0).1 (.focus 2) (by simp [chainOracle, Cmd.flatten, Cmd.flattenL]) 2 rfl
+
+/-- … and a history with it: a key (focus 1 → its FocusIn handler focuses 2), a second key (focus back to 1, then 2 again):
+the budget 7 = 3·1 + 4 is not exhausted, the focus ends on widget 2, FocusOut / FocusIn came in pairs. -/
+example :
+    let s := runSteps chainOracle 7 (runInit chainOracle 7 0 (.node 0 9 9 [(0, 0, 0, .node 1 2 2 []), (3, 3, 0, .node 2 2 2 [])]))
+      [.ev (.key 1), .ev (.key 2)]
+    s.stuck = false ∧ s.focused = 2 ∧ focusRun 0 false s.trace = some 2 := by
+  decide +kernel
 
 example : Cmd.flatten (.batch [.redraw, .slice [.consume, .batch [.other 3]], .focus 2]) =
     [.redraw, .consume, .other 3, .focus 2] := by decide
